@@ -296,6 +296,7 @@ func TestC15(t *testing.T) {
 	hookStamped(c)
 	blankNames(c)
 	routedThenTyped(c)
+	oneNameSeveralTypes(c)
 	run.Sample(map[string]any{"shape": "*state.ChangeMessage", "event_type_name": ebu.EventType(&state.ChangeMessage{}), "go_type": "*state.ChangeMessage", "apis": []string{"persist-name", "replay-eventtype-compare", "subscribe-replay-phase", "subscribe-live-phase", "upcast-as-source", "upcast-as-target", "upcast-target-into-subscription"}})
 	run.Exhaustive(true)
 	_ = json.Valid
@@ -509,6 +510,51 @@ func routedThenTyped(c *caseCtx) {
 	c.run.Case("typed upcasters behind a routing raw upcaster", true)
 	if e1 != nil || e2 != nil || fmt.Sprint(placed) != "[1 4]" || fmt.Sprint(cancelled) != "[2 3 5]" {
 		c.run.Violation("typename:typed-upcast-after-routing-upcaster", fmt.Sprintf("legacy records routed by a raw upcaster to %q / %q, typed upcasters registered for both: the subscription of the placed target received %v (err %v, want [1 4]), that of the cancelled target %v (err %v, want [2 3 5])", ebu.EventType(placedV1{}), ebu.EventType(cancelledV1{}), placed, e1, cancelled, e2), nil)
+	}
+}
+
+type shared struct{ ID int }
+
+func (shared) EventTypeName() string { return "c15.one-name" }
+
+type sharedTwin struct{ ID int }
+
+func (sharedTwin) EventTypeName() string { return "c15.one-name" }
+
+// oneNameSeveralTypes: a typed replay subscription selects stored events by the name of its type.
+// Several Go types may have that name - the value and the pointer shape of a type that names itself,
+// or two structs that agree on a name - and each of their subscriptions replays every event stored
+// under it, in whatever order the subscriptions are made.
+func oneNameSeveralTypes(c *caseCtx) {
+	ctx := context.Background()
+	for order := 0; order < 2; order++ {
+		bus := ebu.New(ebu.WithStore(ebu.NewMemoryStore()), ebu.WithSubscriptionStore(ebu.NewMemoryStore()))
+		ebu.Publish(bus, shared{1})
+		ebu.Publish(bus, &shared{2})
+		ebu.Publish(bus, sharedTwin{3})
+		var val, ptr, twin []int
+		subs := []func() error{
+			func() error {
+				return ebu.SubscribeWithReplay(ctx, bus, "by-value", func(e shared) { val = append(val, e.ID) })
+			},
+			func() error {
+				return ebu.SubscribeWithReplay(ctx, bus, "by-pointer", func(e *shared) { ptr = append(ptr, e.ID) })
+			},
+			func() error {
+				return ebu.SubscribeWithReplay(ctx, bus, "twin", func(e sharedTwin) { twin = append(twin, e.ID) })
+			},
+		}
+		if order == 1 {
+			subs[0], subs[2] = subs[2], subs[0]
+		}
+		var errs []error
+		for _, f := range subs {
+			errs = append(errs, f())
+		}
+		c.run.Case(fmt.Sprintf("one event name, several Go types|order%d", order), true)
+		if fmt.Sprint(val) != "[1 2 3]" || fmt.Sprint(ptr) != "[1 2 3]" || fmt.Sprint(twin) != "[1 2 3]" || errs[0] != nil || errs[1] != nil || errs[2] != nil {
+			c.run.Violation("typename:one-name-several-types", fmt.Sprintf("three events stored under %q (published as a value, as a pointer, and as a second struct with the same name); the replay subscriptions of the value type, the pointer type and the second struct received %v, %v, %v (want [1 2 3] each; errors %v)", ebu.EventType(shared{}), val, ptr, twin, errs), nil)
+		}
 	}
 }
 
